@@ -183,7 +183,8 @@ PROPS = {
                 "emitted. non-trivial = >=1 deployment in flight when the cancellation fired",
         "quick": {"cases": 900, "shards": 12, "shrinktime": "40s"},
         "thorough": {"cases": 15000, "shards": 16, "shrinktime": "180s", "timeout_s": 3300},
-        "assumptions": RUN_ASSUME + ["engine-generated stage outputs in a returned output are not judged: whether they exist depends on the instant a step was closed"],
+        "assumptions": RUN_ASSUME + ["engine-generated stage outputs in a returned output are not judged: whether they exist depends on the instant a step was closed",
+                                     "'is sent the cancel signal' is decided up to 'cancel signal or closed connection': the close-down after a cancelled caller closes the connection concurrently with the signal (seeded change M95 is inside that tolerance, DESIGN 13.5)"],
     },
     "C13": {
         "test": "TestC13", "binary": "sched", "level": "exploration",
